@@ -34,30 +34,47 @@ theorem Rep.orphan {l : List Group} {c : Chain} (r : Rep l c) (id : Bytes) (v : 
   · show sget (sput c.disk id v) [] = _
     rw [hget _ (fun e => hid.1 e.symm)]; exact r.empty
 
-/-- `save` cut after at most its first write (nothing, or only `Put(id, json)`): start-up
-    comes back on the old list (the new group is an unreferenced entry). -/
-theorem crash_save_le1 {l : List Group} {c : Chain} (r : Rep l c) (g : Group) (gen : List Group)
-    (hid : IdOK g.id) (hok : addCheck c g = .ok) (k : Nat) (hk : k ≤ 1) :
-    ∃ d m c', saveB c g k = .crashed d m ∧ restart d m gen = some (.alive c') ∧ Rep l c' := by
-  have hfresh : ∀ x ∈ l, x.id ≠ g.id := by
-    intro x hx e
-    have h1 := (addCheck_ok hok).1
-    have := r.stored x hx
-    rw [e] at this
-    simp [shas, this] at h1
+/-- `save` cut before its batch (nothing written, or only `Put(id, json)`): start-up comes back on
+    the old list (the new group is an unreferenced entry). `save` has exactly these two crash points. -/
+theorem crash_save_fresh {l : List Group} {c : Chain} (r : Rep l c) (g : Group) (gen : List Group)
+    (hid : IdOK g.id) (hfresh : ∀ x ∈ l, x.id ≠ g.id) (k : Nat) (hk : k < 2) :
+    ∃ d c', saveB c g k = .crashed d c.mirror ∧ restart d c.mirror gen = some (.alive c') ∧ Rep l c' := by
   have hk' : k = 0 ∨ k = 1 := by omega
   rcases hk' with rfl | rfl
   · obtain ⟨c', h1, _, _, _, h5⟩ := rep_restart r c.mirror gen
-    exact ⟨c.disk, c.mirror, c', by simp [saveB, saveWrites, applyPrefix, applyWrites], h1, h5⟩
+    exact ⟨c.disk, c', by simp [saveB, saveGroups, applyWrites], h1, h5⟩
   · have r1 := r.orphan g.id (.grp (stamped c.count g)) hid hfresh
     obtain ⟨c', h1, _, _, _, h5⟩ := rep_restart r1 c.mirror gen
-    exact ⟨sput c.disk g.id (.grp (stamped c.count g)), c.mirror, c',
-      by simp [saveB, saveWrites, applyPrefix, applyWrites, applyWrite], h1, h5⟩
+    exact ⟨sput c.disk g.id (.grp (stamped c.count g)), c',
+      by simp [saveB, saveGroups, saveWrites, applyWrites, applyWrite], h1, h5⟩
 
-/-- An operation whose budget covers all four writes is not cut. -/
-theorem saveB_done (c : Chain) (g : Group) (k : Nat) (hk : 4 ≤ k) : saveB c g k = .done (save c g) (k - 4) := by
-  have : ¬ k < 4 := by omega
-  simp [saveB, saveWrites, this]
+theorem fresh_of_addCheck {l : List Group} {c : Chain} (r : Rep l c) {g : Group} (hok : addCheck c g = .ok) :
+    ∀ x ∈ l, x.id ≠ g.id := by
+  intro x hx e
+  have h1 := (addCheck_ok hok).1
+  have := r.stored x hx
+  rw [e] at this
+  simp [shas, this] at h1
+
+/-- A budget of two or more physical writes does not cut `save`; a smaller one does. -/
+theorem saveB_done (c : Chain) (g : Group) (k : Nat) (hk : 2 ≤ k) : saveB c g k = .done (save c g) (k - 2) := by
+  have : ¬ k < 2 := by omega
+  simp [saveB, saveGroups, this]
+
+theorem saveB_crashed_lt {c : Chain} {g : Group} {k : Nat} {d : Store} {m : List Bytes}
+    (h : saveB c g k = .crashed d m) : k < 2 := by
+  by_cases hk : k < 2
+  · exact hk
+  · rw [saveB_done c g k (by omega)] at h; cases h
+
+/-- EVERY crash point of `save`. -/
+theorem crash_save_all {l : List Group} {c : Chain} (r : Rep l c) (g : Group) (gen : List Group)
+    (hid : IdOK g.id) (hfresh : ∀ x ∈ l, x.id ≠ g.id) (k : Nat) (d : Store) (m : List Bytes)
+    (h : saveB c g k = .crashed d m) : ∃ c', restart d m gen = some (.alive c') ∧ Rep l c' := by
+  obtain ⟨d', c', e1, e2, e3⟩ := crash_save_fresh r g gen hid hfresh k (saveB_crashed_lt h)
+  rw [e1] at h
+  cases h
+  exact ⟨c', e2, e3⟩
 
 /-- `remove` cut before its first write: nothing happened. -/
 theorem crash_remove_0 {l : List Group} {g : Group} {c : Chain} (r : Rep (l ++ [g]) c) (hl : l ≠ [])
@@ -102,10 +119,63 @@ theorem firstBoot_le1 {g0 : Group} {rest : List Group} (ok : GenesisOK (g0 :: re
   have hcur : sget d curKey = none := hd curKey (fun e => hid.ne_curKey e.symm)
   have hk' : k = 0 ∨ k = 1 := by omega
   rcases hk' with rfl | rfl
-  · exact ⟨d, by simp [firstBootB, hcur, saveAllB, saveB, saveWrites, applyPrefix, applyWrites], hd⟩
+  · exact ⟨d, by simp [firstBootB, hcur, saveAllB, saveB, saveGroups, applyWrites], hd⟩
   · refine ⟨sput d g0.id (.grp (stamped 0 g0)),
-      by simp [firstBootB, hcur, saveAllB, saveB, saveWrites, applyPrefix, applyWrites, applyWrite], ?_⟩
+      by simp [firstBootB, hcur, saveAllB, saveB, saveGroups, saveWrites, applyWrites, applyWrite], ?_⟩
     intro k hk
     rw [sget_sput]; simp [hk, hd k hk]
+
+/-- The genesis loop cut anywhere after at least one completed genesis save: start-up (which then
+    takes the non-genesis branch) comes back representing the genesis groups saved so far. -/
+theorem saveAllB_crash (gen : List Group) : ∀ (gs : List Group) (l : List Group) (c : Chain), Rep l c →
+    Linked c.last.id gs → (∀ g ∈ gs, IdOK g.id) → (l.map (·.id) ++ gs.map (·.id)).Nodup →
+    l.length + gs.length < lenBound → ∀ (k : Nat) (d : Store) (m : List Bytes),
+    saveAllB gs c k = .crashed d m → ∃ c' l', restart d m gen = some (.alive c') ∧ Rep l' c' := by
+  intro gs
+  induction gs with
+  | nil => intro l c _ _ _ _ _ k d m h; simp [saveAllB] at h
+  | cons g t ih =>
+    intro l c r hlk hid hnd hb k d m h
+    have hfresh : ∀ x ∈ l, x.id ≠ g.id := by
+      intro x hx e
+      rw [List.nodup_append] at hnd
+      exact hnd.2.2 x.id (List.mem_map.mpr ⟨x, hx, rfl⟩) g.id (by simp) e
+    unfold saveAllB at h
+    by_cases hk : k < 2
+    · obtain ⟨d', c', e1, e2, e3⟩ := crash_save_fresh r g gen (hid g (by simp)) hfresh k hk
+      rw [e1] at h
+      simp at h
+      obtain ⟨rfl, rfl⟩ := h
+      exact ⟨c', l, e2, e3⟩
+    · rw [saveB_done c g k (by omega)] at h
+      simp only at h
+      have r1 := rep_save r g (by simp at hb; omega) (hid g (by simp)) hfresh hlk.1
+      exact ih (l ++ [stamped l.length g]) (save c g) r1 (by exact hlk.2)
+        (fun x hx => hid x (by simp [hx]))
+        (by simpa [stamped, List.append_assoc] using hnd)
+        (by simp at hb ⊢; omega) (k - 2) d m h
+
+/-- EVERY crash point of the very first start-up (any number of genesis groups). -/
+theorem first_boot_crash_all {g0 : Group} {rest : List Group} (ok : GenesisOK (g0 :: rest))
+    (k : Nat) (d : Store) (m : List Bytes)
+    (h : firstBootB [] [] (g0 :: rest) k = some (.crashed d m)) :
+    ∃ c l, restart d m (g0 :: rest) = some (.alive c) ∧ Rep l c := by
+  by_cases hk : k < 2
+  · obtain ⟨d', e1, f1⟩ := firstBoot_le1 ok [] [] (fun _ _ => rfl) k (by omega)
+    rw [e1] at h
+    simp at h
+    obtain ⟨rfl, rfl⟩ := h
+    obtain ⟨c, e3, r⟩ := rep_init_fresh ok d' [] f1
+    exact ⟨c, _, e3, r⟩
+  · have hid : IdOK g0.id := ok.idok g0 (by simp)
+    simp only [firstBootB, sget, saveAllB] at h
+    rw [saveB_done _ g0 k (by omega)] at h
+    simp only [Option.some.injEq] at h
+    have r0 := rep_save_first [] g0 g0 hid ok.linked.1
+    have hb := ok.bound
+    exact saveAllB_crash (g0 :: rest) rest [stamped 0 g0] _ r0 ok.linked.2
+      (fun x hx => ok.idok x (by simp [hx]))
+      (by simpa [stamped] using ok.nodup)
+      (by simp at hb ⊢; omega) (k - 2) d m h
 
 end Rangers.Model.GroupChain
